@@ -33,7 +33,7 @@ func nameIdx(n string) int {
 //
 //	define set get delete delnear   — value table (delnear = DeleteGlobal)
 //	deftype type                     — type table
-//	copy                             — Copy, then GetValueSymbols+Get and GetTypeSymbols+Type on the copy
+//	copy deepcopy                    — Copy / DeepCopy, then GetValueSymbols+Get and GetTypeSymbols+Type on the copy's own scope
 //	syms tsyms                       — GetValueSymbols / GetTypeSymbols
 //	string                           — String
 type Op struct {
@@ -136,7 +136,7 @@ func withName(l []string, n string) []string {
 	return out
 }
 
-var opKinds = []string{"define", "define", "set", "set", "get", "get", "delete", "delnear", "deftype", "type", "copy", "syms", "tsyms", "string"}
+var opKinds = []string{"define", "define", "set", "set", "get", "get", "delete", "delnear", "deftype", "type", "copy", "deepcopy", "syms", "tsyms", "string"}
 
 func genSubset(t *rapid.T, label string, pNum int) []string {
 	var out []string
@@ -220,7 +220,7 @@ func validProg(p Prog) error {
 				if nameIdx(op.N) < 0 {
 					return fmt.Errorf("bad op %v", op)
 				}
-			case "copy", "syms", "tsyms", "string":
+			case "copy", "deepcopy", "syms", "tsyms", "string":
 			default:
 				return fmt.Errorf("unknown op kind %q", op.K)
 			}
@@ -350,7 +350,9 @@ func apply(s state, op Op) (state, string) {
 			return s, "t" + strconv.Itoa(s.pt[i])
 		}
 		return s, "err"
-	case "copy":
+	case "copy", "deepcopy":
+		// DeepCopy copies the scope and then, separately, its parents ("each scope is a consistent
+		// snapshot but not the whole"): the operation's result is the snapshot of the shared scope
 		return s, "copy{" + renderTab(s.cv) + "|" + renderTab(s.ct) + "}"
 	case "syms":
 		return s, "syms{" + renderSyms(s.cv) + "}"
@@ -488,6 +490,10 @@ func execOp(w world, op Op) string {
 		return "t" + typeID(t)
 	case "copy":
 		cp := e.Copy()
+		v, t := readTables(cp)
+		return "copy{" + v + "|" + t + "}"
+	case "deepcopy":
+		cp := e.DeepCopy()
 		v, t := readTables(cp)
 		return "copy{" + v + "|" + t + "}"
 	case "syms":
